@@ -1,6 +1,7 @@
 package props
 
 import (
+	"github.com/hashicorp/hcl-lang/reference"
 	"fmt"
 	"sort"
 	"strings"
@@ -160,6 +161,49 @@ func c13Exact(cx *explore.Ctx, q run.Query, got []lang.SemanticToken, body *hcls
 		}
 	}
 	cx.L.Count("exact_structural_tokens", int64(len(exp)))
+	// reference steps: tokens for exactly the references (collected origins of this file) that resolve to a
+	// collected target - resolution as the reference package defines it
+	if pc := cx.W.Ctx(0); pc != nil {
+		type rr struct{ resolves bool }
+		byRange := map[hcl.Range]*rr{}
+		for _, o := range pc.ReferenceOrigins {
+			r := o.OriginRange()
+			if r.Filename != cx.Case.File {
+				continue
+			}
+			x := byRange[r]
+			if x == nil {
+				x = &rr{}
+				byRange[r] = x
+			}
+			if mo, ok := o.(reference.MatchableOrigin); ok {
+				if _, ok := pc.ReferenceTargets.Match(mo); ok {
+					x.resolves = true
+				}
+			}
+		}
+		for r, x := range byRange {
+			n := 0
+			for _, t := range got {
+				if t.Type == lang.TokenReferenceStep && r.Start.Byte <= t.Range.Start.Byte && t.Range.End.Byte <= r.End.Byte {
+					n++
+				}
+			}
+			cx.L.Count("exact_reference_checks", 1)
+			inZone := false
+			for _, z := range zones {
+				if z.rng.Start.Byte <= r.Start.Byte && r.End.Byte <= z.rng.End.Byte {
+					inZone = true
+				}
+			}
+			if x.resolves && n == 0 && inZone {
+				add("tokens:missing-reference-steps", "hcl-referenceStep:"+exprPathAt(body, r), fmt.Sprintf("the reference at %s resolves to a collected declaration but none of its steps has a token", fmtRange(r)))
+			}
+			if !x.resolves && n > 0 {
+				add("tokens:reference-steps-of-unresolved-reference", "hcl-referenceStep", fmt.Sprintf("the reference at %s resolves to nothing but has %d step tokens", fmtRange(r), n))
+			}
+		}
+	}
 	// simple literal values: exactly one token of the literal's type covering the literal
 	for _, z := range zones {
 		var wantT lang.SemanticTokenType
@@ -203,4 +247,28 @@ func c13Exact(cx *explore.Ctx, q run.Query, got []lang.SemanticToken, body *hcls
 			add("tokens:literal-value", string(wantT), fmt.Sprintf("literal value at %s (constraint type %s): expected exactly one %s token covering it, got %d (last: %s %s)", fmtRange(z.rng), litT.FriendlyName(), wantT, n, tk.Type, fmtRange(tk.Range)))
 		}
 	}
+}
+
+
+// exprPathAt names the outermost expression that contains r and the node right above r (a site class for witnesses).
+func exprPathAt(body *hclsyntax.Body, r hcl.Range) string {
+	var chain []string
+	_ = hclsyntax.VisitAll(body, func(n hclsyntax.Node) hcl.Diagnostics {
+		if _, isExpr := n.(hclsyntax.Expression); !isExpr {
+			return nil
+		}
+		nr := n.Range()
+		if nr.Start.Byte <= r.Start.Byte && r.End.Byte <= nr.End.Byte {
+			chain = append(chain, strings.TrimPrefix(fmt.Sprintf("%T", n), "*hclsyntax."))
+		}
+		return nil
+	})
+	// outermost expression (the attribute's value) and the node right above the reference
+	switch {
+	case len(chain) >= 3:
+		return chain[0] + ">" + chain[len(chain)-2]
+	case len(chain) == 2:
+		return chain[0]
+	}
+	return strings.Join(chain, ">")
 }
